@@ -347,6 +347,8 @@ type Program struct {
 	// mutants that empty a package stay well-formed.
 	BlankLibs string `json:"blank_libs,omitempty"`
 	InjRaw    string `json:"inj_raw,omitempty"`
+	// InjRawB: raw declarations added to injector file 1 (if the program has one)
+	InjRawB string `json:"inj_raw_b,omitempty"`
 	// AliasImports: the user's files import the program's own packages under an alias that
 	// differs from the package name (al_<name>).
 	AliasImports bool `json:"alias_imports,omitempty"`
@@ -490,6 +492,7 @@ func (p *Program) Clone() *Program {
 	q.InjBlankImports = append([]string(nil), p.InjBlankImports...)
 	q.BlankLibs = p.BlankLibs
 	q.InjRaw = p.InjRaw
+	q.InjRawB = p.InjRawB
 	return q
 }
 
